@@ -1063,13 +1063,21 @@ impl<'de> serde::de::Visitor<'de> for DataVisitor<'_> {
                     // temporary public IDs are deserialized exactly
                     // as they were serialized. So if there were any gaps,
                     // we need to deserialize these too:
-                    if self.dataset.data_len() > handle + pre_length {
+                    if handle.checked_add(pre_length).map_or(true, |sum| self.dataset.data_len() > sum) {
                         return Err(serde::de::Error::custom(
                             "unable to resolve temporary public identifiers for annotation data",
                         ));
                     } else if handle > self.dataset.data_len() {
                         // expand the gaps, though this wastes memory if ensures that all references
                         // are valid without explicitly storing public identifiers.
+                        // (the number comes from the input: a length that cannot be allocated is an error, not a panic)
+                        self.dataset.data
+                            .try_reserve(handle - self.dataset.data_len())
+                            .map_err(|_| {
+                                serde::de::Error::custom(
+                                    "temporary public identifier for annotation data is out of range",
+                                )
+                            })?;
                         self.dataset.data.resize_with(handle, Default::default);
                     }
                 }
